@@ -1,13 +1,24 @@
 """C01 - every expression evaluates to its mathematical value on both evaluation paths."""
-CONTRACT_MODULES = ['c01_values', 'c01_signatures']
+CONTRACT_MODULES = ['c01_values', 'c01_signatures', 'c01c_nary']
 LEVEL = 'other'
 TRUSTED = ['pyvc (VC generator, Python semantics of the stated subset)', 'z3 5.1.0 / cvc5 1.0.3',
            'ENGINE-SPEC: the compiled engine evaluates the decoded tree to its mathematical value (assumed; sampled by the bounded conformance harness)']
-ASSUMPTIONS = ['A-REAL: floats are mathematical reals', 'A-DISPATCH: children are evaluated through the abstract get_value contract (structural induction)']
+ASSUMPTIONS = ['A-REAL: floats are mathematical reals', 'A-DISPATCH: children are evaluated through the abstract get_value contract (structural induction)',
+               'A-STR-TOK (c01c): the text of an f-string hole contains none of the characters , < > { } ( ) " [ ] (numbers by construction; '
+               'the parameter / variable NAMES written unquoted into a bioLinearUtility line by assumption)',
+               'ENGINE-LEX laws (c01c, specs/c01c_lines.py): appending ",item" pieces to a line leaves its header fields and earlier items unchanged '
+               '(property of first-occurrence bracket extraction and of split on commas)',
+               'c01c: the child layout the LogLogit / bioLinearUtility lines rely on (every referenced id is a member of self.children) is established by the '
+               'constructors: bounded only (bounded/c01c_nary.py)']
 EXPLANATION = ('Python evaluator: the get_value body of every node class is proved equal to its defining equation over the values of its children '
-               '(all trees by structural induction, all values).  Engine path: assumed ENGINE-SPEC, sampled by a bounded conformance harness.')
+               '(all trees by structural induction, all values).  Engine path: assumed ENGINE-SPEC, sampled by a bounded conformance harness.'
+               '  Round 2 (c01c): the LOOP-BUILT signature lines of bioMultSum, ConditionalSum, Elem, bioLinearUtility, _bioLogLogit, '
+               '_bioLogLogitFullChoiceSet and BelongsTo are under contract for any number of terms (loop invariants over the engine lexer readings of the '
+               'partially built line: class tag, id, count, and for every term k the ids / keys / indices at the positions bioFormula.cc reads; '
+               'children signatures first, in order, as a recursive concatenation).')
 LEVEL_TEXT = ('Deductive proof for the Python evaluator and the Python-side plumbing; the compiled engine is an assumed dependency contract '
-              'sampled by a bounded harness (not counted as proved).')
+              'sampled by a bounded harness (not counted as proved).'
+              '  The n-ary signature lines are deductive for all arities (c01c); the child layout set by the constructors is bounded.')
 LEVEL_NOTE = 'Trusted: pyvc, z3/cvc5, A-REAL, ENGINE-SPEC (cythonbiogeme evaluates SEM), LIBSPEC for numpy.exp/log/sin/cos (uninterpreted).'
 TECHNIQUE = 'contract-based deductive verification (AST -> VCs -> z3/cvc5) + bounded engine-conformance stand-in'
 DESIGN_REF = 'DESIGN.md section 3 / C01'
@@ -37,4 +48,16 @@ def extra(tier, seed):
     out = _extra0(tier, seed)
     out.append(run_native('C01:bounded:engine-conformance', 'c01_engine_conformance.py', [tier, str(seed)],
                           bound='see the harness bound string: 44 operator kinds over {free Beta, fixed Beta, Variable, Numeric}, depth <= 2 (3), 5 (9) grid points, sharing, side-by-side, name order', timeout=1500))
+    return out
+
+
+_extra1 = extra
+
+
+def extra(tier, seed):
+    from pyvc.bounded import run_native
+    out = _extra1(tier, seed)
+    out.append(run_native('C01:bounded:nary-signature-lines-and-child-layout', 'c01c_nary.py', [],
+                          bound='7 n-ary classes x 1..4 terms x 3 operand mixes (expressions, shared operands, plain numbers): line decoded with a '
+                                'transcription of the engine reader, ids defined before use, child layout set by the constructors'))
     return out
